@@ -617,6 +617,21 @@ function generateNameData(out, instructions, generateAliases) {
 
   let dataSize = instNameData.getSize() + 26 * 4;
 
+  // The name index can only be used to search instructions if instruction ids are sorted by instruction names. If they
+  // are not (AArch64 has a group of general purpose instructions followed by a group of ASIMD instructions, and neither
+  // group is strictly sorted) a table of instruction ids sorted by name is generated and used for the search instead.
+  const named = instructions.filter(function(inst) { return inst.displayName !== ""; });
+  const sorted = named.slice().sort(function(a, b) { return cmp(a.displayName, b.displayName); });
+
+  if (!sorted.every(function(inst, i) { return inst === named[i]; })) {
+    const sortedIds = sorted.map(function(inst) { return `Inst::kId${inst.enum}`; });
+    s += `\n`;
+    s += `const uint16_t InstDB::_inst_name_sorted_id_table[] = {\n` + StringUtils.format(sortedIds, "  ", true, null) + `\n};\n`;
+    s += `\n`;
+    s += `const uint32_t InstDB::_inst_name_sorted_id_count = ${sortedIds.length};\n`;
+    dataSize += sortedIds.length * 2;
+  }
+
   if (generateAliases) {
     s += `\n`;
     s += aliasNameData.formatStringTable("InstDB::alias_name_string_table");
